@@ -50,6 +50,7 @@ type ExecResult struct {
 	WFailed bool   `json:"wfailed"`
 	Cbs     int    `json:"cbs"`
 	err     error
+	werr    error // the error the caller's writer failed with
 }
 
 func (r *ExecResult) Failed() bool { return r.Err != "" || r.Panic != "" }
@@ -85,6 +86,7 @@ func (w *World) Exec(tpl *pongo2.Template, ep int, ctx pongo2.Context, blocks []
 			res.Written = string(sw.Got)
 			res.WCalls = sw.Calls
 			res.WFailed = sw.Failed
+			res.werr = sw.Err
 		}
 	}()
 	switch ep {
